@@ -272,7 +272,7 @@ def run(ctx):
     # ---------------------------------------------------------------- R7
     r = ctx.rule("C19-R7", "PAIR", "whoever ends the automatic mode ends the spinner: in the method that joins the spinner thread every normal path to its end passes the join "
                  "(or the test showing there is no thread) - no early return on quiet / on the output kind before it; and a thread object that is created is started on every "
-                 "path to the with-body (a join of a thread that was never started raises)", reference=2)
+                 "path to the with-body (a join of a thread that was never started raises)", reference=3)
     always_joins = set()
     for _round in range(3):
         for name_, m in sorted(methods.items()):
@@ -330,7 +330,7 @@ def run(ctx):
 
     # ---------------------------------------------------------------- R9
     r = ctx.rule("C19-R9", "KEY", "the frame format is chosen for the output the frames are written to: capability questions (ANSI support, verbosity) are put to self._io after the constructor "
-                 "unwrapped an I/O facade to its error output - never to the constructor's raw parameter", reference=3)
+                 "unwrapped an I/O facade to its error output - never to the constructor's raw parameter", reference=7)
     CAP = ("supports_ansi", "is_verbose", "is_very_verbose", "is_debug", "is_quiet")
     init_ = methods["__init__"]
     icfg_ = ctx.cfg(init_)
@@ -366,7 +366,7 @@ def run(ctx):
         r.vacuous_ok = True
     # ---------------------------------------------------------------- R10
     r = ctx.rule("C19-R10", "SENTINEL", "'the end frame shows the end message': finish() shows the message it was given, whatever it is - the store of the message is not under a "
-                 "truthiness test of the parameter (the empty message is a message), and every wait for the spinner thread is without a time limit", reference=2)
+                 "truthiness test of the parameter (the empty message is a message), and every wait for the spinner thread is without a time limit", reference=3)
     fin_m = methods.get("finish")
     ctx.require(fin_m is not None, "ProgressIndicator.finish missing")
     fcfg_ = ctx.cfg(fin_m)
